@@ -658,6 +658,9 @@ func expectK29(root, s sgen.M, v any, belowMap bool, depth int, n *int) any {
 		for _, kw := range []string{"$defs", "definitions"} {
 			if defs, ok := root[kw].(sgen.M); ok {
 				if d, ok := defs[ref[strings.LastIndex(ref, "/")+1:]].(sgen.M); ok {
+					if _, isEnum := d["enum"]; isEnum && d["type"] == nil {
+						return v // a reference to an untyped enum definition is interface{} (K18): no wrapper here
+					}
 					return expectK29(root, d, v, belowMap, depth+1, n)
 				}
 			}
